@@ -201,23 +201,79 @@ def check(ctx: Ctx) -> None:
         ob.site(fg, None, "_getremoteerror falls back to gateway._error", returns=rets)
         if "self.gateway._error" not in rets and not any("getattr(self.gateway, '_error'" in r for r in rets):
             ob.violation(fg, fg.node, "_getremoteerror no longer falls back to the gateway's remembered EOFError")
+        # on value terms (any spelling: `raise e or EOFError()`, `if e is None: raise EOFError()` / `raise e`, a helper ...)
+        from ..terms import NONE as _N, evaluator as _ev, tv as _tv
+
+        def _remembered(t):
+            return t[0] == "fresh" and str(t[2]).endswith("_getremoteerror")
+
+        def _eof(t):
+            return t[0] == "fresh" and str(t[2]).split(".")[-1] == "EOFError"
+
+        def raise_roles(fi_, relevant):
+            """which of {remembered, eof} the raising paths selected by `relevant(st)` raise, and whether each is chosen rightly"""
+            got, bad = set(), []
+            evr = _ev(repo, fi_)
+            for (pth, st) in evr.run(limit=20000):
+                if not relevant(st):
+                    continue
+                rz = [e for e in st.events if e.kind == "raise"]
+                if pth[-1][0] != evr.cfg.raise_exit.id or not rz:
+                    if pth[-1][0] == evr.cfg.exit.id:
+                        bad.append("returns")
+                    continue
+                V = rz[-1].value
+                known = dict(st.cond)
+                if V is None:
+                    continue
+                if V[0] == "or" and len(V) == 3 and _remembered(V[1]) and _eof(V[2]):
+                    got |= {"remembered", "eof"}
+                elif _remembered(V):
+                    got.add("remembered")
+                    if _tv(("cmp", "is", V, _N), known) is not False:
+                        bad.append("may raise None")
+                elif _eof(V):
+                    rem = [e.result for e in st.events if e.kind == "call" and e.result is not None and _remembered(e.result)]
+                    got.add("eof")
+                    if not rem or not (_tv(("cmp", "is", rem[-1], _N), known) is True or _tv(rem[-1], known) is False):
+                        bad.append("EOFError although an error may be remembered")
+                else:
+                    bad.append("raises something else")
+            return got, bad
         fr = repo.func(f"{GB}.Channel.receive")
-        rs = [n for n in repo.own_nodes(fr) if isinstance(n, ast.Raise) and n.exc is not None and "_getremoteerror" in unparse(n.exc)]
-        ok = len(rs) == 1 and isinstance(rs[0].exc, ast.BoolOp) and isinstance(rs[0].exc.op, ast.Or) and unparse(rs[0].exc.values[-1]).startswith("EOFError")
-        ob.site(fr, rs[0] if rs else fr.node, "receive raises remembered error or EOFError at ENDMARKER", ok=ok)
+        got, bad = raise_roles(fr, lambda st: any(t[0] == "cmp" and t[1] == "is" and ("sym", "ENDMARKER") in (t[2], t[3]) and v is True for (t, v) in st.cond))
+        ok = got == {"remembered", "eof"} and not bad
+        ob.site(fr, fr.node, "receive raises remembered error or EOFError at ENDMARKER", ok=ok, raises=sorted(got), problems=sorted(set(bad)))
         if not ok:
             ob.violation(fr, fr.node, "receive() does not raise `remembered error or EOFError()` when it meets ENDMARKER")
         fw = repo.func(f"{GB}.Channel.waitclose")
-        cfgw = build_cfg(repo, fw, Oracle(repo, fw, precise=True))
-        rr = [n for n in cfgw.nodes if isinstance(n.ast, ast.Raise) and unparse(n.ast.exc) == "error" and n.id in cfgw.live()]
-        ge = cfg_nodes_with_call(cfgw, lambda c: callee_attr(c) == "_getremoteerror")
-        ok = len(rr) == 1 and len(ge) == 1 and cfgw.dominated_by(rr[0].id, ge[0].id)
-        ob.site(fw, rr[0].ast if rr else fw.node, "waitclose re-raises the remembered error", ok=ok)
-        if not ok:
+        evw = _ev(repo, fw)
+        n_raise = n_quiet = 0
+        okw = True
+        for (pth, st) in evw.run(limit=20000):
+            rem = [e.result for e in st.events if e.kind == "call" and e.result is not None and _remembered(e.result)]
+            if not rem:
+                continue
+            known = dict(st.cond)
+            absent = _tv(("cmp", "is", rem[-1], _N), known) is True or _tv(rem[-1], known) is False
+            rz = [e for e in st.events if e.kind == "raise"]
+            if pth[-1][0] == evw.cfg.raise_exit.id and rz and rz[-1].value == rem[-1] and not absent:
+                n_raise += 1
+            elif pth[-1][0] == evw.cfg.exit.id and absent:
+                n_quiet += 1
+            else:
+                okw = False
+        okw = okw and n_raise >= 1 and n_quiet >= 1
+        ob.site(fw, fw.node, "waitclose re-raises the remembered error", ok=okw)
+        if not okw:
             ob.violation(fw, fw.node, "waitclose() does not re-raise the remembered error")
         wt = [c for c in repo.calls_in(fw) if callee_attr(c) == "wait"]
         if not wt or not any(unparse(x) == "timeout" for x in list(wt[0].args) + [k.value for k in wt[0].keywords]):
             ob.violation(fw, fw.node, "waitclose() does not pass its timeout to the event wait")
+
+    # a second receiver blocked on the same channel must see the end too: the marker goes back on the queue
+    from .C03 import check_endmarker_requeue
+    check_endmarker_requeue(ctx, "C04.k")
 
     with ctx.obligation("C04.h", "callbacks-contained") as ob:
         rc = receiver_context(repo)
